@@ -40,6 +40,112 @@ def _is_sentinel_test(test, pol, var, sent):
     return pair == {var, sent} and op in ('is not', '!=')
 
 
+def _merge_fn(repo, m):
+    merge = m.funcs.get('_merge_defaults')
+    if merge is None:
+        for f in m.funcs.values():
+            for c in ast.walk(f.node):
+                if isinstance(c, ast.Call) and call_name(c) == 'python_to_sdocs':
+                    for k in c.keywords:
+                        if k.arg is None and isinstance(k.value, ast.Call):
+                            r = m.funcs.get(call_name(k.value))
+                            if r:
+                                merge = r
+    if merge is None:
+        raise AnalysisError('merge helper vanished')
+    return merge
+
+
+def check_merge(repo, rep, rule):
+    """sentinel merge: name sets agree, explicit argument (including an explicit None) wins over the
+    default, defaults read at call time.  Shared with C10 (None must reach python_to_sdocs)."""
+    m = repo.module('')
+    sent = _sentinel_name(m)
+    pts = repo.func('prettyprinter', 'python_to_sdocs')
+    settings = pts.params[1:]
+    merge = _merge_fn(repo, m)
+    dc = m.assigns.get('_default_config')
+    if not dc or not isinstance(dc[0], ast.Dict):
+        raise AnalysisError('_default_config is no longer a dict literal')
+    default_keys = [k.value for k in dc[0].keys if isinstance(k, ast.Constant)]
+    # ---------------------------------------------------------------- C18.b name sets
+    n = 0
+    mparams = merge.params
+    n += 1
+    rep.check(set(mparams) == set(default_keys) == set(settings), rule, 'name-sets-agree', merge.where,
+              'merge parameters = default keys = python_to_sdocs settings',
+              'setting name sets differ: merge helper %s, _default_config %s, python_to_sdocs %s'
+              % (sorted(mparams), sorted(default_keys), sorted(settings)), nontrivial=True)
+    a = merge.node.args
+    n += 1
+    rep.check(not a.defaults and all(d is None for d in a.kw_defaults), rule, 'merge:no-captured-defaults',
+              merge.where, 'merge helper has no definition-time defaults',
+              'the merge helper declares default values (captured at definition time)')
+    # body shape
+    uses_locals = any(isinstance(c, ast.Call) and call_name(c) == 'locals' for c in ast.walk(merge.node))
+    comp = [c for c in ast.walk(merge.node) if isinstance(c, ast.DictComp)]
+    loads_default_at_call = any(isinstance(x, ast.Name) and x.id == '_default_config' for x in ast.walk(merge.node))
+    n += 1
+    rep.check(loads_default_at_call, rule, 'merge:defaults-read-at-call-time', merge.where,
+              '_default_config loaded inside the function body',
+              'the merge helper does not read _default_config when called: a later set_default_config is not seen',
+              nontrivial=True)
+    if comp and uses_locals:
+        c = comp[0]
+        gen = c.generators[0]
+        ok_iter = src(gen.iter) == '_default_config.items()' and isinstance(gen.target, ast.Tuple) \
+            and len(gen.target.elts) == 2
+        n += 1
+        rep.check(ok_iter, rule, 'merge:iterates-default-items', '%s:%d' % (m.relpath, c.lineno),
+                  'every default key is merged', 'merge comprehension iterates %s' % src(gen.iter))
+        if ok_iter:
+            kvar, dvar = (e.id for e in gen.target.elts)
+            lv = None
+            for s in ast.walk(merge.node):
+                if isinstance(s, ast.Assign) and isinstance(s.value, ast.Call) and call_name(s.value) == 'locals':
+                    lv = s.targets[0].id
+            arg = '%s[%s]' % (lv, kvar)
+            v = c.value
+            n += 1
+            good = src(c.key) == kvar and isinstance(v, ast.IfExp)
+            if good:
+                if _is_sentinel_test(v.test, True, arg, sent):
+                    good = src(v.body) == arg and src(v.orelse) == dvar
+                elif _is_sentinel_test(v.test, False, arg, sent):
+                    good = src(v.orelse) == arg and src(v.body) == dvar
+                else:
+                    good = False
+            rep.check(good, rule, 'merge:explicit-overrides-default', '%s:%d' % (m.relpath, c.lineno),
+                      'argument unless it is the sentinel, else the default',
+                      'merged value is %s for key %s: an explicit argument must win unless it is the sentinel %s'
+                      % (src(v), src(c.key), sent), nontrivial=True)
+            # locals() taken before any other local is bound
+            first = merge.node.body[0]
+            if isinstance(first, ast.Expr) and isinstance(first.value, ast.Constant):
+                first = merge.node.body[1]
+            n += 1
+            rep.check(isinstance(first, ast.Assign) and isinstance(first.value, ast.Call)
+                      and call_name(first.value) == 'locals', rule, 'merge:locals-first', merge.where,
+                      'locals() captured first', 'locals() is not captured before other locals are bound')
+    else:
+        # explicit per-key idiom: x if x is not S else D['x']
+        for key in default_keys:
+            n += 1
+            found = False
+            for e in ast.walk(merge.node):
+                if isinstance(e, ast.IfExp):
+                    for pol, mine, other in ((True, e.body, e.orelse), (False, e.orelse, e.body)):
+                        if _is_sentinel_test(e.test, pol, key, sent) and src(mine) == key \
+                                and src(other) in ("_default_config['%s']" % key, '_default_config["%s"]' % key):
+                            found = True
+            rep.check(found, rule, 'merge:explicit-overrides-default:%s' % key, merge.where,
+                      'argument unless sentinel else default',
+                      'no "%s if %s is not %s else _default_config[%r]" found for setting %s' % (key, key, sent, key, key),
+                      nontrivial=True)
+    return n
+
+
+
 def run(repo, rep):
     rep.explanation = ('R-SIB / R-GUARD / R-WHO wiring rules over __init__.py: C18.a sibling entry points, C18.b '
                        'sentinel merge with name-set agreement and call-time defaults, C18.c exact '
@@ -71,81 +177,7 @@ def run(repo, rep):
         raise AnalysisError('_default_config is no longer a dict literal')
     default_keys = [k.value for k in dc[0].keys if isinstance(k, ast.Constant)]
 
-    # ---------------------------------------------------------------- C18.b name sets
-    n = 0
-    mparams = merge.params
-    n += 1
-    rep.check(set(mparams) == set(default_keys) == set(settings), 'C18.b', 'name-sets-agree', merge.where,
-              'merge parameters = default keys = python_to_sdocs settings',
-              'setting name sets differ: merge helper %s, _default_config %s, python_to_sdocs %s'
-              % (sorted(mparams), sorted(default_keys), sorted(settings)), nontrivial=True)
-    a = merge.node.args
-    n += 1
-    rep.check(not a.defaults and all(d is None for d in a.kw_defaults), 'C18.b', 'merge:no-captured-defaults',
-              merge.where, 'merge helper has no definition-time defaults',
-              'the merge helper declares default values (captured at definition time)')
-    # body shape
-    uses_locals = any(isinstance(c, ast.Call) and call_name(c) == 'locals' for c in ast.walk(merge.node))
-    comp = [c for c in ast.walk(merge.node) if isinstance(c, ast.DictComp)]
-    loads_default_at_call = any(isinstance(x, ast.Name) and x.id == '_default_config' for x in ast.walk(merge.node))
-    n += 1
-    rep.check(loads_default_at_call, 'C18.b', 'merge:defaults-read-at-call-time', merge.where,
-              '_default_config loaded inside the function body',
-              'the merge helper does not read _default_config when called: a later set_default_config is not seen',
-              nontrivial=True)
-    if comp and uses_locals:
-        c = comp[0]
-        gen = c.generators[0]
-        ok_iter = src(gen.iter) == '_default_config.items()' and isinstance(gen.target, ast.Tuple) \
-            and len(gen.target.elts) == 2
-        n += 1
-        rep.check(ok_iter, 'C18.b', 'merge:iterates-default-items', '%s:%d' % (m.relpath, c.lineno),
-                  'every default key is merged', 'merge comprehension iterates %s' % src(gen.iter))
-        if ok_iter:
-            kvar, dvar = (e.id for e in gen.target.elts)
-            lv = None
-            for s in ast.walk(merge.node):
-                if isinstance(s, ast.Assign) and isinstance(s.value, ast.Call) and call_name(s.value) == 'locals':
-                    lv = s.targets[0].id
-            arg = '%s[%s]' % (lv, kvar)
-            v = c.value
-            n += 1
-            good = src(c.key) == kvar and isinstance(v, ast.IfExp)
-            if good:
-                if _is_sentinel_test(v.test, True, arg, sent):
-                    good = src(v.body) == arg and src(v.orelse) == dvar
-                elif _is_sentinel_test(v.test, False, arg, sent):
-                    good = src(v.orelse) == arg and src(v.body) == dvar
-                else:
-                    good = False
-            rep.check(good, 'C18.b', 'merge:explicit-overrides-default', '%s:%d' % (m.relpath, c.lineno),
-                      'argument unless it is the sentinel, else the default',
-                      'merged value is %s for key %s: an explicit argument must win unless it is the sentinel %s'
-                      % (src(v), src(c.key), sent), nontrivial=True)
-            # locals() taken before any other local is bound
-            first = merge.node.body[0]
-            if isinstance(first, ast.Expr) and isinstance(first.value, ast.Constant):
-                first = merge.node.body[1]
-            n += 1
-            rep.check(isinstance(first, ast.Assign) and isinstance(first.value, ast.Call)
-                      and call_name(first.value) == 'locals', 'C18.b', 'merge:locals-first', merge.where,
-                      'locals() captured first', 'locals() is not captured before other locals are bound')
-    else:
-        # explicit per-key idiom: x if x is not S else D['x']
-        for key in default_keys:
-            n += 1
-            found = False
-            for e in ast.walk(merge.node):
-                if isinstance(e, ast.IfExp):
-                    for pol, mine, other in ((True, e.body, e.orelse), (False, e.orelse, e.body)):
-                        if _is_sentinel_test(e.test, pol, key, sent) and src(mine) == key \
-                                and src(other) in ("_default_config['%s']" % key, '_default_config["%s"]' % key):
-                            found = True
-            rep.check(found, 'C18.b', 'merge:explicit-overrides-default:%s' % key, merge.where,
-                      'argument unless sentinel else default',
-                      'no "%s if %s is not %s else _default_config[%r]" found for setting %s' % (key, key, sent, key, key),
-                      nontrivial=True)
-    rep.floor('C18.b', n, 5)
+    rep.floor('C18.b', check_merge(repo, rep, 'C18.b'), 5)
 
     # ---------------------------------------------------------------- C18.a entry points
     n = 0
